@@ -4,9 +4,10 @@ use children::{children_between, trivia_before};
 use dprint_core::formatting::{
 	condition_helpers::is_multiple_lines,
 	condition_resolvers::true_resolver,
+	conditions::if_true_or,
 	ir_helpers::{new_line_group, with_indent},
-	ConditionResolver, ConditionResolverContext, LineNumber, LineNumberAnchor, PrintItems,
-	PrintOptions,
+	ConditionReevaluation, ConditionResolver, ConditionResolverContext, LineNumber,
+	LineNumberAnchor, PrintItems, PrintOptions,
 };
 use hi_doc::{Formatting, SnippetBuilder};
 use jrsonnet_lexer::collect_lexed_str_block;
@@ -30,13 +31,17 @@ mod comments;
 mod tests;
 
 /// Body of a bracket pair: the items and the comments after the last of them, either on the line of
-/// the brackets (separated from them by `padding`) or as an indented block on lines of their own
+/// the brackets (separated from them by `padding`) or as an indented block on lines of their own.
+///
+/// `cond` is decided where the body starts; the returned re-evaluation, to be placed behind the
+/// closing bracket, decides it again from what was printed and has the body laid out anew if it
+/// has changed, so that a body that came to span lines after all does not stay in one-line form.
 fn with_indent_eoi(
 	cond: ConditionResolver,
 	padding: &'static str,
 	o: PrintItems,
 	e: EndingComments,
-) -> PrintItems {
+) -> (PrintItems, ConditionReevaluation) {
 	let end_comments_items = {
 		let mut items = PrintItems::new();
 		if e.should_start_with_newline {
@@ -48,8 +53,11 @@ fn with_indent_eoi(
 	let items = new_line_group(pi!(@i; items(o) items(end_comments_items.into()))).into_rc_path();
 
 	let indented = with_indent(pi!(@i; nl items(items.into())));
+	let inline = pi!(@i; if (!padding.is_empty())(str(padding)) items(items.into()));
 
-	pi!(@i; if_else("indented body", cond, items(indented))(if (!padding.is_empty())(str(padding)) items(items.into())))
+	let mut body = if_true_or("indented body", cond, indented, inline);
+	let reevaluation = body.create_reevaluation();
+	(body.into(), reevaluation)
 }
 
 pub trait Printable {
@@ -191,6 +199,10 @@ macro_rules! pi {
 	// line: a group keeps its extent while a group around it is laid out again
 	(@s; $o:ident: ln_anchor($v:expr) $($t:tt)*) => {{
 		$o.push_anchor(LineNumberAnchor::new($v));
+		pi!(@s; $o: $($t)*);
+	}};
+	(@s; $o:ident: reevaluate($v:expr) $($t:tt)*) => {{
+		$o.push_reevaluation($v);
 		pi!(@s; $o: $($t)*);
 	}};
 	(@s; $o:ident: if($s:literal, $cond:expr, $($i:tt)*) $($t:tt)*) => {{
@@ -505,9 +517,9 @@ impl Printable for ArgsDesc {
 
 		// Comments before `)` belong to the indented block, like the ones before `]` and `}`
 		let args_items = gen_args(children, multi_line.clone());
-		let args = with_indent_eoi(multi_line, "", args_items, end_comments);
+		let (args, reevaluation) = with_indent_eoi(multi_line, "", args_items, end_comments);
 
-		p!(out, str("(") ln_anchor(end) info(start) items(args) str(")") info(end));
+		p!(out, str("(") ln_anchor(end) info(start) items(args) str(")") info(end) reevaluate(reevaluation));
 	}
 }
 impl Printable for SliceDesc {
@@ -682,11 +694,12 @@ impl Printable for ObjBody {
 				let members_items =
 					new_line_group(gen_members(children, multi_line.clone())).into_rc_path();
 
-				let members = with_indent_eoi(multi_line, " ", members_items.into(), end_comments);
+				let (members, reevaluation) =
+					with_indent_eoi(multi_line, " ", members_items.into(), end_comments);
 
 				p!(out, str("{") ln_anchor(end) info(start));
 				p!(out, items(members));
-				p!(out, str("}") info(end));
+				p!(out, str("}") info(end) reevaluate(reevaluation));
 			}
 		}
 	}
@@ -913,9 +926,9 @@ impl Printable for ExprArray {
 
 		let els_items = new_line_group(gen_elements(children, multi_line.clone())).into_rc_path();
 
-		let els = with_indent_eoi(multi_line, " ", els_items.into(), end_comments);
+		let (els, reevaluation) = with_indent_eoi(multi_line, " ", els_items.into(), end_comments);
 
-		p!(out, str("[") ln_anchor(end) info(start) items(els) str("]") info(end));
+		p!(out, str("[") ln_anchor(end) info(start) items(els) str("]") info(end) reevaluate(reevaluation));
 	}
 }
 
